@@ -593,7 +593,7 @@ def exec (sc : Scripts) : Nat → Task → World → R
           | none => { w := w, val := none }
           | some t =>
             (exec sc f (.hook t.2 .act (some a)) { w with cg := some a }).andThen fun w _ =>
-              { w := { w with cg := saveCg }, val := some 1 }
+              { w := { w with cg := saveCg }, val := some a }
     | .destruct ob =>
       if restricted w ob then raise w errRestrict
       else if ¬ (ob < w.c.n) ∨ (w.c.objs ob).freed then crashR w "destruct_object: not an object"
